@@ -149,6 +149,12 @@ where
             return Err(());
         }
 
+        // Negative (or NaN) entries would lead to a non-monotonic CDF even if they sum up to a
+        // positive normalization. Note that `!(p >= 0)` is also true for NaN.
+        if probs.iter().any(|p| !(*p >= F::zero())) {
+            return Err(());
+        }
+
         let remaining_free_weight =
             wrapping_pow2::<Probability>(PRECISION).wrapping_sub(&probs.len().as_());
         let normalization =
